@@ -77,3 +77,12 @@ Q("ksolve-floor-div", "subspacemin.py", "        v[: int(LK.shape[0] / 2)] *= -1
 # ---- INVMFORM (round 4: "robust" floor on the curvatures)
 M("invmform-floor", "bfgsmats.py", "    invD.flat[:: D.shape[0] + 1] = 1 / np.diag(D)\n", "    invD.flat[:: D.shape[0] + 1] = 1 / np.maximum(np.diag(D), 2.2e-16)\n", ["INVMFORM"], canary=True)
 M("invmform-abs", "bfgsmats.py", "    invD.flat[:: D.shape[0] + 1] = 1 / np.diag(D)\n", "    invD.flat[:: D.shape[0] + 1] = 1 / np.abs(np.diag(D))\n", ["INVMFORM"])
+
+# ---- BPWALK (mutation sweep survivors in the Cauchy search)
+M("bpwalk-no-break", "cauchy.py", "            is_gpc_found = True\n            break\n", "            is_gpc_found = True\n", ["BPWALK"], canary=True)
+M("bpwalk-stale-ibp", "cauchy.py", "            ibp = sorted_t_idx[_i]\n            t_cur = t[ibp]\n        except IndexError:", "            t_cur = t[sorted_t_idx[_i]]\n        except IndexError:", ["BPWALK"])
+M("bpwalk-zero-breakpoints-kept", "cauchy.py", "    sorted_t_idx = sorted_t_idx[t[sorted_t_idx] > 0]\n", "    sorted_t_idx = sorted_t_idx[t[sorted_t_idx] >= 0]\n", ["BPWALK"])
+M("bpwalk-mask-one", "cauchy.py", "    mask = grad != 0\n", "    mask = grad != 1\n", ["BPWALK", "SIGN"])
+M("bpwalk-stop-after-update", "cauchy.py", "        if delta_t_min < delta_t:\n            is_gpc_found = True\n            break\n", "", ["BPWALK"],
+  also=[("cauchy.py", "        c += delta_t * p\n", "        c += delta_t * p\n        if delta_t_min < delta_t:\n            is_gpc_found = True\n            break\n")])
+M("sign-pin-negated-test", "cauchy.py", "        if d[ibp] > 0:\n", "        if not d[ibp] > 0:\n", ["SIGN"])
